@@ -39,7 +39,10 @@ EpVictimFile == atoi(IOEnv.VERIF_FILE)
 EpGen(p) ==
     LET vf == EpVictimFile
         sl == Variant                                         \* "r", "b" or "q"
-    IN \E k \in { k \in Sq : InSlice(k) }, pf \in { pf \in {vf - 1, vf + 1} : pf \in 0..7 }, s \in Sq, bk \in {63, 56, 32} :
+    IN \E k \in { k \in Sq : InSlice(k) }, pf \in { pf \in {vf - 1, vf + 1} : pf \in 0..7 }, s \in Sq,
+          \* the victim's king far away, or next to the victim's start square (so that the capturing pawn,
+          \* landing behind the victim, gives a direct check)
+          bk \in {63, 56, 32} \cup { At(g, 6) : g \in { g \in {vf - 1, vf + 1} : g \in 0..7 } } :
           p = Mk0(PlaceAll(EmptyBoard, << <<"K", k>>, <<"P", At(pf, 4)>>, <<"p", At(vf, 6)>>, <<sl, s>>, <<"k", bk>> >>), "b", {})
 EpRootOK(p) == /\ Cardinality({ s \in Sq : p.b[s] # "." }) = 5 /\ ValidPosition(p)
            /\ p.b[At(EpVictimFile, 5)] = "." /\ p.b[At(EpVictimFile, 4)] = "."
@@ -72,7 +75,10 @@ PromoOK(p) == ValidPosition(p) /\ p.b[At(PromoFile, 6)] = "P"
 
 (* ---- mate: white pieces against the black king; White to move *)
 MatePieces == CASE Variant = "KQ" -> <<"Q">> [] Variant = "KR" -> <<"R">> [] Variant = "KRR" -> <<"R", "R">>
-                [] Variant = "KBN" -> <<"B", "N">> [] Variant = "KQP" -> <<"Q">> [] OTHER -> <<"Q">>
+                [] Variant = "KBN" -> <<"B", "N">> [] Variant = "KQP" -> <<"Q">> [] Variant = "KBB" -> <<"B", "B">>
+                [] Variant = "KQQ" -> <<"Q", "Q">> [] Variant = "KQR" -> <<"Q", "R">> [] Variant = "KNN" -> <<"N", "N">>
+                [] Variant = "KQRR" -> <<"Q", "R", "R">> [] Variant = "KQRB" -> <<"Q", "R", "B">> [] Variant = "KRRR" -> <<"R", "R", "R">>
+                [] OTHER -> <<"Q">>
 MateGen(p) ==
     LET n == Len(MatePieces)
         shield == IF Variant = "KQP" THEN {<<>>, << <<"p", 53>>, <<"p", 54>>, <<"p", 55>> >>, << <<"p", 54>>, <<"p", 55>> >>} ELSE {<<>>}
@@ -92,7 +98,9 @@ MateGen(p) ==
         psq(bk) == IF extra = "" THEN Sq ELSE { x \in Sq : KDist(x, bk) <= 3 }
         withx(seq, x) == IF x = -1 THEN seq ELSE seq \o << <<extra, x>> >>
     IN \E bk \in bks : \E k \in { k \in near(bk) : InSlice(bk * 64 + k) }, x \in xs(bk),
-          ps \in { q \in [1..n -> psq(bk)] : n = 1 \/ Slices = 1 \/ extra # "" \/ q[1] % 4 = Slice % 4 }, sh \in shield :
+          ps \in { q \in [1..n -> psq(bk)] : \/ n = 1 \/ Slices = 1 \/ extra # ""
+                                            \/ (n = 2 /\ q[1] % 4 = Slice % 4)
+                                            \/ (n >= 3 /\ q[1] % 8 = Slice % 8 /\ q[2] % 8 = (Slice \div 8) % 8) }, sh \in shield :
           p = [ Mk0(PlaceAll(PlaceAll(EmptyBoard, sh), withx(<< <<"K", k>>, <<"k", bk>> >> \o [i \in 1..n |-> <<MatePieces[i], ps[i]>>], x)), "w", {})
                 EXCEPT !.hm = hm0 ]
 MateOK(p) == ValidPosition(p)
